@@ -202,6 +202,17 @@ def template_sexps(text):
     return [ser.stmt(s) for s in tree.body]
 
 
+def placeholder_occurrences(text, kws):
+    """[(kw, #occurrences as ast.Name, #occurrences as ast.arg)] in the parsed template"""
+    tree = ast.parse(textwrap.dedent(text))
+    out = []
+    for k in kws:
+        n = sum(1 for x in ast.walk(tree) if isinstance(x, ast.Name) and x.id == k)
+        a = sum(1 for x in ast.walk(tree) if isinstance(x, ast.arg) and x.arg == k)
+        out.append((k, n, a))
+    return out
+
+
 class _Site(object):
     def __init__(self, rel, module, function, lineno, end_lineno, as_expr, kws, has_star_kw):
         self.rel, self.module, self.function = rel, module, function
@@ -335,7 +346,7 @@ def gen_templates(problems):
     out.append('/-- marker for a call site whose template string the translator could not resolve statically -/')
     out.append('def unresolved : List Stmt := [.other 0 "unresolved" [] []]')
     out.append('')
-    table, sitetab, unresolved = [], [], []
+    table, sitetab, unresolved, occtab = [], [], [], []
     for s in sites:
         if s.name in seen:
             problems.append('duplicate site name ' + s.name)
@@ -360,6 +371,10 @@ def gen_templates(problems):
         else:
             out.append('def tmpl_%s : List Stmt := %s' % (s.name, term))
         out.append('def tmplKw_%s : List String := %s' % (s.name, _strs(s.kws)))
+        occ = placeholder_occurrences(s.text, s.kws) if term is not None else [(k, 0, 0) for k in s.kws]
+        out.append('def tmplOcc_%s : List (String × Nat × Nat) := [%s]' % (
+            s.name, ', '.join('(%s, %d, %d)' % (_lean_str(k), a, b) for k, a, b in occ)))
+        occtab.append('  (%s, tmplOcc_%s)' % (_lean_str(s.name), s.name))
         out.append('')
         table.append('  (%s, tmpl_%s, tmplKw_%s)' % (_lean_str(s.name), s.name, s.name))
         sitetab.append('  (%s, %s, %d, %d, %s)' % (_lean_str(s.name), _lean_str(s.rel), s.lineno, s.end_lineno, _b(s.as_expr)))
@@ -370,6 +385,12 @@ def gen_templates(problems):
     out.append('/-- (site, file, first line, last line of the call, replace_as_expression?) -/')
     out.append('def templateSites : List (String × String × Nat × Nat × Bool) := [')
     out.append(',\n'.join(sitetab))
+    out.append(']')
+    out.append('')
+    out.append('/-- per site and bound keyword: (keyword, occurrences as a `Name` placeholder, occurrences as a parameter name — the')
+    out.append('one position where the bound nodes are inserted WITHOUT a copy) -/')
+    out.append('def allOcc : List (String × List (String × Nat × Nat)) := [')
+    out.append(',\n'.join(occtab))
     out.append(']')
     out.append('')
     out.append('def unresolvedSites : List String := %s' % _strs(unresolved))
